@@ -183,7 +183,7 @@ def main():
     if not nfail:
         for oid, r in sorted(unlisted_bad.items()):
             was = base.get(oid)
-            if r["status"] == "refuted" and was == "discharged":
+            if r["status"] == "refuted" and was == "discharged" and (r.get("complete") or not _has_ghost_folds(r)):
                 path = os.path.join(rdir, "refuted_%s.py" % "".join(ch if ch.isalnum() else "_" for ch in oid))
                 body = "print(%r)\nprint(%r)\nsys.exit(1)\n" % ("obligation %s was discharged on the baseline and is now refuted by the solver" % oid,
                                                                (r.get("model") or "")[:3000])
@@ -237,6 +237,13 @@ def main():
     print("%s: %d/%d obligations discharged, %s, %.1fs" % (prop, n_dis, n_obl,
           "native %d evaluations, %d failures" % (native.get("evaluations", 0), len(native.get("failures", []))) if native else "no native stand-in", time.time() - t0))
     sys.exit(1 if violations else 0)
+
+
+def _has_ghost_folds(r):
+    """a solver `sat` over uninterpreted ghost folds / real functions is not a closed refutation
+    (the axiomatisation is incomplete): such an obligation only degrades"""
+    m = r.get("model") or ""
+    return any(k in m for k in ("dimOf", "bdexp", "bsize", "rpow", "rlog", "rsqrt", "noconv"))
 
 
 def _z3v():
